@@ -214,7 +214,8 @@ def recipe(c: Check):
              "the Go side and UDPPacket contents of 0..20000 bytes through the real udp.ForwardUserConn in a child process. "
              "tunnels driver (Go-side monitors): two users sending overlapping datagram streams through ONE udp proxy of a real frpc "
              "(each must get back only its own payloads, none twice); sudp and stcp tunnels between a real owner frpc and a real visitor "
-             "frpc for all four useEncryption x useCompression combinations. dgram also: EncodeMessage/DecodeMessageInto under every key "
+             "frpc for all four useEncryption x useCompression combinations; control-channel interop matrix transport.protocol tcp/websocket/kcp x "
+             "tls off/on and quic (a tcp proxy must reach running and echo). dgram also: EncodeMessage/DecodeMessageInto under every key "
              "length 0..33. "
              "loginx driver: authenticated Login first messages with pool_count in {-1,-10,-11,-1000,MinInt32,MinInt64,MaxInt64,...} and "
              "timestamp extremes (key computed for them) against a frps in a CHILD process; observed: reply, child alive, A's heartbeat "
